@@ -22,9 +22,16 @@
 #     indices, records and counters compared after every step.
 #  4. Operation-level histories (TCP, port forward, UDP; ICMP with puppets) ending with everything closed / disconnected:
 #     every relay index, record count and counter must return to zero.
+#  5. Histories that do not depend on colliding ids:
+#     * open failures of every kind (key-exchange failure, destination not allowed, dial failure, limit reached) and
+#       data-path faults (frame that does not authenticate, target reset) against the exit and the forward handler of a
+#       real agent driven by a puppet ingress: records = counter = tunnels really established after every step
+#       (TestZZVRelayFaults), plus corrupt-frame / target-reset histories between real agents;
+#     * fast reconnect (Ops "reconn": LinkDown, DiscCleanup, Reconnect; DevSkipCleanupIfReconnected; NoStaleEntry): the peer
+#       is connected again before the transit's disconnect callback runs (TestZZVRelayReconnect).
 import vf, _relay as R
 
-INV17 = "TypeOK IndexConsistent CounterExact BookkeepingEmpty NoEntryForDeadPeer"
+INV17 = "TypeOK IndexConsistent CounterExact BookkeepingEmpty NoEntryForDeadPeer NoStaleEntry"
 
 
 def op(s):
@@ -64,6 +71,24 @@ def run(ctx):
     for site, c in site_cfg.items():
         thunks.append(lambda site=site, c=c: R.deviation(ctx, "sid_" + site, c["topo"], keying="sid", sites=[site], ops=c["ops"],
                                                          maxf=c["maxf"], invs=c["invs"]))
+    ext_ideal = {"reconnect": dict(topo="chain", ops=("disc", "reconn"), maxf=0, maxr=0),
+                 "corrupt": dict(topo="chain", ntun=1, ops=("corrupt", "tclose", "fail"), maxf=1, maxr=0)}
+    ext_dev = {"DevSkipCleanupIfReconnected": dict(topo="chain", ntun=1, ops=("disc", "reconn"), maxf=0, maxr=0,
+                                                   dev=["DevSkipCleanupIfReconnected"]),
+               "DevDataErrorKeepsRecord": dict(ext_ideal["corrupt"], dev=["DevDataErrorKeepsRecord"])}
+    if not q:
+        ext_ideal["reconnect"] = dict(topo="fanin", ops=("disc", "reconn"), maxf=0, maxr=0)
+        ext_ideal["corrupt"] = dict(topo="chain", ntun=2, ops=("corrupt", "tclose"), maxf=1, maxr=0)
+
+    def ext_cfg(c, invs):
+        c = dict(c)
+        return R.cfg(c.pop("topo"), c.pop("ntun", 2), c.pop("kinds", ("tcp",) * 3), invs=invs, **c)
+    ext_thunks = []
+    for name, c in ext_ideal.items():
+        ext_thunks.append(lambda name=name, c=c: R.tlc(ctx, "ideal_" + name, ext_cfg(c, INV17 + " Isolation"), workers=2 if q else 4,
+                                                       timeout=1500))
+    for name, c in ext_dev.items():
+        ext_thunks.append(lambda name=name, c=c: R.tlc(ctx, name, ext_cfg(c, INV17), expect_violation=True))
     rel_specs = [("chain", "tcp", dict(ntun=1, ops=("tclose", "fail", "disc"), maxf=1, maxr=0)),
                  ("vee", "forward", dict(ops=("fail",), maxf=0, maxr=0))]
     if not q:
@@ -73,7 +98,8 @@ def run(ctx):
                      ("vee", "tcp", dict(ops=("fail", "disc"), maxf=0, maxr=0))]
     for topo, variant, c in rel_specs:
         thunks.append(lambda topo=topo, variant=variant, c=c: R.relation(ctx, "rel_%s_%s" % (topo, variant), topo, **c))
-    res = R.parallel(thunks)
+    res = R.parallel(thunks + ext_thunks)
+    xres, res = res[len(thunks):], res[:len(thunks)]
     n_i, n_d, n_s = len(ideal_insts), len(dev_cfg), len(site_cfg)
     ideals = res[:n_i]
     devs = dict(zip(dev_cfg, res[n_i:n_i + n_d]))
@@ -84,6 +110,15 @@ def run(ctx):
             raise vf.Infra("ideal Relay spec violates %s on %s (specification error)" % (r.violated, inst))
     caught = {d: r.violated for d, r in devs.items()}
     caught.update({"DevKeyedByStreamIdOnly@" + s: r.violated for s, r in sids.items()})
+    for (name, c), r in zip(ext_ideal.items(), xres[:len(ext_ideal)]):
+        if r.violated:
+            raise vf.Infra("ideal Relay spec (%s) violates %s (specification error)" % (name, r.violated))
+        ideal_insts.append(dict(c, name=name))
+        ideals.append(r)
+    for d, r in zip(ext_dev, xres[len(ext_ideal):]):
+        if not r.violated:
+            raise vf.Infra("deviation %s not detected by the invariants (vacuous model)" % d)
+        caught[d] = r.violated
 
     # ---- frame-level replay ---------------------------------------------------------------------------------------
     jobs, cex = [], {}
@@ -108,6 +143,8 @@ def run(ctx):
         "fanin-collide-disc": ("fanin", ["open 1", "open 2", "close 1", "close 2", "disc A T", "disc B T"]),
         "vee-collide": ("vee", ["open 1", "open 2", "close 1", "close 2"]),
         "star-collide": ("star", ["open 1", "open 2", "tclose 1", "close 2"]),
+        # faults on the data path: a frame that does not authenticate, a target that resets its connection
+        "chain-faults": ("chain", ["burn T X", "open 1", "open 2", "send 1", "corrupt 1", "send 2", "tabort 2"]),
     }
     if not q:
         hist.update({
@@ -126,7 +163,8 @@ def run(ctx):
     if not q:
         import C16
         scs += [dict(s, idle_ms=200, no_leak=False) for s in C16.sim_scenarios(ctx, n=30, depth=30)]
-    out, recs, icmp = R.run_all(ctx, jobs, scs)
+    out, recs, icmp = R.run_all(ctx, jobs, scs, extra=["Faults", "Reconnect"])
+    faults, reconn = ctx.relay_extra["Faults"], ctx.relay_extra["Reconnect"]
     reproduced = {}
     for name, (site, variant, path) in cex.items():
         o = out.pop(name)
@@ -146,6 +184,13 @@ def run(ctx):
 
     nfail = R.report_scenarios(ctx, recs, R.C17_KINDS)
     nfail += R.report_icmp(ctx, icmp, R.C17_KINDS)
+    for f in faults.get("fails") or []:
+        nfail += 1
+        ctx.finding("Relay:unexplained:%s-handler:bookkeeping:%s" % (f["handler"], f["step"]),
+                    "puppet ingress against the %s handler of a real agent, step %s: %s" % (f["handler"], f["step"], f["detail"]), f)
+    for f in reconn.get("fails") or []:
+        nfail += 1
+        ctx.finding("Relay:unexplained:relay-table:%s" % f["scenario"], f["detail"], f)
 
     rel_paths = sum(o["paths"] for o in out.values())
     ctx.evidence("model_checking",
@@ -156,13 +201,14 @@ def run(ctx):
                               "ICMP exit handler not exercised when unprivileged ICMP sockets are unavailable: icmp_exit_real=%s"
                               % icmp.get("icmp_exit_real")],
                  states=sum(r.distinct for r in ideals), transitions=sum(r.generated for r in ideals),
-                 traces_validated_against_impl=rel_paths + len(cex) + len(recs) + 3,
+                 traces_validated_against_impl=rel_paths + len(cex) + len(recs) + 4 + 2 + (reconn.get("rounds") or 0),
                  exhaustive=True,
                  ideal_instances=[dict(inst, states=r.distinct, transitions=r.generated) for inst, r in zip(ideal_insts, ideals)],
                  deviations_caught=caught, counterexamples_reproduced_on_code=reproduced,
                  relation_edges={n: o["edges"] for n, o in out.items()}, replayed_paths=rel_paths,
                  replayed_steps=sum(o["steps"] for o in out.values()), replay_mismatches=nmis,
                  scenarios=len(recs), scenario_failures=nfail, icmp_exit_real=icmp.get("icmp_exit_real"),
+                 fault_steps=faults.get("steps"), fast_reconnect_rounds=reconn.get("rounds"),
                  samples=[{"replay_path": next(iter(out.values()))["sample"]},
                           {"counterexample_relay": [s["a"] for s in cex["cex_relay_tcp"][2]["steps"]]},
                           {"history": hist["fanin-collide-disc"]}])
